@@ -148,7 +148,7 @@ def run_inst(spec, run):
         viol.append(z3.Or(S.term(res["top"].lower) != ref[res["topid"]], S.term(res["top"].upper) != ref[res["topid"]]))
         run.obligation(ctx, "truth-function", z3.Or(viol), conc)
         run.validate(ctx, conc, lambda m: {"props": {k: [S.model_int(m, b.lower), S.model_int(m, b.upper)] for k, b in r.items()},
-                                           "top": [S.model_int(m, res["top"].lower), S.model_int(m, res["top"].upper)]})
+                                           "top": [S.model_int(m, res["top"].lower), S.model_int(m, res["top"].upper)]}, extremes=plh.extremes(env))
         run.sample({"model": pl.show(model_spec), "path_condition": [str(z3.simplify(c)) for c in ctx.pc][:8],
                     "result_top": str(z3.simplify(S.term(res["top"].lower)))[:300]})
 
